@@ -86,7 +86,8 @@ def kinds(core_only: bool = False, raisers: bool = True):
     ]
     for n in range(0, 4):
         ks.append((f'rep{n}', 1, (lambda n: lambda x: P('rep', N(n), x))(n), 'rep'))
-        ks.append((f'rep_opt{n}', 1, (lambda n: lambda x: P('rep_opt', N(n), x))(n), 'rep'))
+        if n > 0:   # rep_opt< 0, R > with a single rule is an ambiguous partial specialisation in internal/rep_opt.hpp (does not compile)
+            ks.append((f'rep_opt{n}', 1, (lambda n: lambda x: P('rep_opt', N(n), x))(n), 'rep'))
         ks.append((f'rep_min{n}', 1, (lambda n: lambda x: P('rep_min', N(n), x))(n), 'rep'))
         ks.append((f'rep_max{n}', 1, (lambda n: lambda x: P('rep_max', N(n), x))(n), 'rep'))
     for lo in range(0, 3):
@@ -291,7 +292,7 @@ class RandGen:
             lo = r.randint(0, 2) if not consuming else r.randint(1, 2)
             return P('rep_min_max', N(lo), N(lo + r.randint(0, 2)), E(consuming, guarded))
         if op == 'rep_opt':
-            return P('rep_opt', N(r.randint(0, 3)), E(False, guarded))
+            return P('rep_opt', N(r.randint(1, 3)), E(False, guarded))
         if op == 'if_then_else':
             return P('if_then_else', E(False, guarded), E(consuming, guarded), E(consuming, guarded))
         if op == 'strict':
